@@ -35,6 +35,294 @@ fn unhex(s: &str) -> Vec<u8> {
     (0..s.len() / 2).filter_map(|i| u8::from_str_radix(&s[2 * i..2 * i + 2], 16).ok()).collect()
 }
 
+
+// ---------------------------------------------------------------------------
+// structure-aware mutations: the decoded module is changed in memory and re-encoded (checksum recomputed by
+// the encoder), so every mutant passes the framing and reaches the table decoders, the validator and metadata()
+
+use trust_runtime::bytecode::{ConstEntry, SectionData, TypeData, TypeKind};
+
+fn sec<'a>(m: &'a mut BytecodeModule, pick: fn(&SectionData) -> bool) -> Option<&'a mut SectionData> {
+    m.sections.iter_mut().map(|s| &mut s.data).find(|d| pick(d))
+}
+
+fn struct_mutants(m: &BytecodeModule) -> Vec<(&'static str, BytecodeModule)> {
+    let mut out: Vec<(&'static str, BytecodeModule)> = vec![];
+    let count = |pick: fn(&SectionData) -> Option<usize>| m.sections.iter().find_map(|s| pick(&s.data)).unwrap_or(0);
+    let n_types = count(|d| if let SectionData::TypeTable(t) = d { Some(t.entries.len()) } else { None }) as u32;
+    let n_consts = count(|d| if let SectionData::ConstPool(t) = d { Some(t.entries.len()) } else { None }) as u32;
+    let n_refs = count(|d| if let SectionData::RefTable(t) = d { Some(t.entries.len()) } else { None }) as u32;
+    let n_strings = count(|d| if let SectionData::StringTable(t) = d { Some(t.entries.len()) } else { None }) as u32;
+    let n_pous = count(|d| if let SectionData::PouIndex(t) = d { Some(t.entries.len()) } else { None }) as u32;
+    let is_types: fn(&SectionData) -> bool = |d| matches!(d, SectionData::TypeTable(_));
+    let is_consts: fn(&SectionData) -> bool = |d| matches!(d, SectionData::ConstPool(_));
+
+    // header flag bits beside the checksum bit
+    for bit in 1..32 {
+        let mut x = m.clone();
+        x.flags |= 1 << bit;
+        out.push(("header_flag_bit", x));
+    }
+    // section flags / ids
+    for si in 0..m.sections.len() {
+        let mut x = m.clone();
+        x.sections[si].flags ^= 0x8001;
+        out.push(("section_flags", x));
+    }
+
+    // ---- type graph: self references, two-entry cycles, boundary ids; a constant of the affected type makes the
+    // validator walk it
+    let point_const_at = |x: &mut BytecodeModule, t: u32| {
+        if let Some(SectionData::ConstPool(c)) = sec(x, is_consts) {
+            if let Some(e) = c.entries.first_mut() {
+                e.type_id = t;
+            } else {
+                c.entries.push(ConstEntry { type_id: t, payload: vec![0; 8] });
+            }
+        }
+    };
+    for t in 0..n_types {
+        let next = (t + 1) % n_types.max(1);
+        for (label, target) in [("type_self_reference", t), ("type_points_at_next", next), ("type_id_at_table_end", n_types), ("type_id_max", u32::MAX)] {
+            // (a) entries that already reference a type
+            let mut x = m.clone();
+            let mut touched = false;
+            if let Some(SectionData::TypeTable(tt)) = sec(&mut x, is_types) {
+                match &mut tt.entries[t as usize].data {
+                    TypeData::Array { elem_type_id, .. } => {
+                        *elem_type_id = target;
+                        touched = true;
+                    }
+                    TypeData::Struct { fields } | TypeData::Union { fields } => {
+                        if let Some(f) = fields.last_mut() {
+                            f.type_id = target;
+                            touched = true;
+                        }
+                    }
+                    TypeData::Enum { base_type_id, .. } | TypeData::Subrange { base_type_id, .. } => {
+                        *base_type_id = target;
+                        touched = true;
+                    }
+                    TypeData::Alias { target_type_id } | TypeData::Reference { target_type_id } => {
+                        *target_type_id = target;
+                        touched = true;
+                    }
+                    TypeData::Pou { pou_id } => {
+                        *pou_id = if target == t { n_pous } else { target };
+                        touched = true;
+                    }
+                    _ => {}
+                }
+            }
+            if touched {
+                let mut y = x.clone();
+                point_const_at(&mut y, t);
+                out.push((label, x));
+                out.push((label, y));
+            }
+        }
+        // (b) the entry becomes a subrange / alias / array of `target`; with `next` turned the same way for a
+        // cycle made of one kind only
+        if t < 24 {
+            for kind in 0..3 {
+                for two in [false, true] {
+                    let mut x = m.clone();
+                    if let Some(SectionData::TypeTable(tt)) = sec(&mut x, is_types) {
+                        let make = |to: u32| match kind {
+                            0 => (TypeKind::Subrange, TypeData::Subrange { base_type_id: to, lower: 0, upper: 9 }),
+                            1 => (TypeKind::Alias, TypeData::Alias { target_type_id: to }),
+                            _ => (TypeKind::Array, TypeData::Array { elem_type_id: to, dims: vec![(0, 1)] }),
+                        };
+                        let (k, d) = make(if two { next } else { t });
+                        tt.entries[t as usize].kind = k;
+                        tt.entries[t as usize].data = d;
+                        if two && next != t {
+                            let (k, d) = make(t);
+                            tt.entries[next as usize].kind = k;
+                            tt.entries[next as usize].data = d;
+                        }
+                    }
+                    point_const_at(&mut x, t);
+                    out.push((if two { "type_cycle_of_two" } else { "type_cycle_of_one" }, x));
+                }
+            }
+        }
+    }
+    // ---- constants
+    for c in 0..n_consts.min(12) {
+        for (label, f) in [
+            ("const_type_at_table_end", 0u8),
+            ("const_type_max", 1),
+            ("const_payload_empty", 2),
+            ("const_payload_short", 3),
+            ("const_payload_long", 4),
+        ] {
+            let mut x = m.clone();
+            if let Some(SectionData::ConstPool(cp)) = sec(&mut x, is_consts) {
+                let e = &mut cp.entries[c as usize];
+                match f {
+                    0 => e.type_id = n_types,
+                    1 => e.type_id = u32::MAX,
+                    2 => e.payload.clear(),
+                    3 => {
+                        e.payload.pop();
+                    }
+                    _ => e.payload.extend_from_slice(&[0xff; 5]),
+                }
+            }
+            out.push((label, x));
+        }
+    }
+    // ---- every other table: one index at the table end / at the maximum
+    for (label, v_of) in [("index_at_table_end", 0u8), ("index_max", 1)] {
+        let pickv = |len: u32| if v_of == 0 { len } else { u32::MAX };
+        let n_sections = m.sections.len();
+        for si in 0..n_sections {
+            // number of sites in this section
+            let sites = match &m.sections[si].data {
+                SectionData::RefTable(t) => t.entries.len().min(8) * 3,
+                SectionData::PouIndex(t) => t.entries.len().min(10) * 10,
+                SectionData::ResourceMeta(t) => t.resources.iter().map(|r| 4 + r.tasks.len() * 6).sum(),
+                SectionData::IoMap(t) => t.bindings.len().min(8) * 3,
+                SectionData::VarMeta(t) => t.entries.len().min(8) * 5,
+                SectionData::RetainInit(t) => t.entries.len().min(8) * 2,
+                SectionData::DebugMap(t) => t.entries.len().min(4) * 3,
+                _ => 0,
+            };
+            for site in 0..sites {
+                let mut x = m.clone();
+                let mut done = false;
+                match &mut x.sections[si].data {
+                    SectionData::RefTable(t) => {
+                        let e = &mut t.entries[site / 3];
+                        match site % 3 {
+                            0 => e.owner_id = pickv(n_pous),
+                            1 => e.offset = pickv(1 << 16),
+                            _ => {
+                                for sgm in &mut e.segments {
+                                    if let trust_runtime::bytecode::RefSegment::Field { name_idx } = sgm {
+                                        *name_idx = pickv(n_strings);
+                                    }
+                                }
+                            }
+                        }
+                        done = true;
+                    }
+                    SectionData::PouIndex(t) => {
+                        let e = &mut t.entries[site / 10];
+                        match site % 10 {
+                            0 => e.name_idx = pickv(n_strings),
+                            1 => e.code_offset = pickv(1 << 20),
+                            2 => e.code_length = pickv(1 << 20),
+                            3 => e.local_ref_start = pickv(n_refs),
+                            4 => e.local_ref_count = pickv(n_refs),
+                            5 => e.return_type_id = Some(pickv(n_types)),
+                            6 => e.owner_pou_id = Some(if v_of == 0 { e.id } else { u32::MAX }),
+                            7 => {
+                                if let Some(p) = e.params.first_mut() {
+                                    p.type_id = pickv(n_types);
+                                    p.default_const_idx = Some(pickv(n_consts));
+                                }
+                            }
+                            8 => {
+                                let id = e.id;
+                                if let Some(cm) = e.class_meta.as_mut() {
+                                    // a class that is its own parent
+                                    cm.parent_pou_id = Some(if v_of == 0 { id } else { u32::MAX });
+                                }
+                            }
+                            _ => {
+                                if let Some(cm) = e.class_meta.as_mut() {
+                                    if let Some(me) = cm.methods.first_mut() {
+                                        me.pou_id = pickv(n_pous);
+                                        me.vtable_slot = pickv(1 << 16);
+                                    }
+                                    if let Some(im) = cm.interfaces.first_mut() {
+                                        im.interface_type_id = pickv(n_types);
+                                    }
+                                }
+                            }
+                        }
+                        done = true;
+                    }
+                    SectionData::ResourceMeta(t) => {
+                        let mut k = site;
+                        for r in &mut t.resources {
+                            let span = 4 + r.tasks.len() * 6;
+                            if k >= span {
+                                k -= span;
+                                continue;
+                            }
+                            match k {
+                                0 => r.name_idx = pickv(n_strings),
+                                1 => r.inputs_size = u32::MAX,
+                                2 => r.outputs_size = u32::MAX,
+                                3 => r.memory_size = u32::MAX,
+                                _ => {
+                                    let task = &mut r.tasks[(k - 4) / 6];
+                                    match (k - 4) % 6 {
+                                        0 => task.name_idx = pickv(n_strings),
+                                        1 => task.single_name_idx = Some(pickv(n_strings)),
+                                        2 => task.program_name_idx.push(pickv(n_strings)),
+                                        3 => task.fb_ref_idx.push(pickv(n_refs)),
+                                        4 => task.interval_nanos = if v_of == 0 { i64::MIN } else { -1 },
+                                        _ => task.priority = u32::MAX,
+                                    }
+                                }
+                            }
+                            done = true;
+                            break;
+                        }
+                    }
+                    SectionData::IoMap(t) => {
+                        let e = &mut t.bindings[site / 3];
+                        match site % 3 {
+                            0 => e.address_str_idx = pickv(n_strings),
+                            1 => e.ref_idx = pickv(n_refs),
+                            _ => e.type_id = Some(pickv(n_types)),
+                        }
+                        done = true;
+                    }
+                    SectionData::VarMeta(t) => {
+                        let e = &mut t.entries[site / 5];
+                        match site % 5 {
+                            0 => e.name_idx = pickv(n_strings),
+                            1 => e.type_id = pickv(n_types),
+                            2 => e.ref_idx = pickv(n_refs),
+                            3 => e.init_const_idx = Some(pickv(n_consts)),
+                            _ => e.retain = 0xff,
+                        }
+                        done = true;
+                    }
+                    SectionData::RetainInit(t) => {
+                        let e = &mut t.entries[site / 2];
+                        if site % 2 == 0 {
+                            e.ref_idx = pickv(n_refs);
+                        } else {
+                            e.const_idx = pickv(n_consts);
+                        }
+                        done = true;
+                    }
+                    SectionData::DebugMap(t) => {
+                        let e = &mut t.entries[site / 3];
+                        match site % 3 {
+                            0 => e.pou_id = pickv(n_pous),
+                            1 => e.code_offset = pickv(1 << 20),
+                            _ => e.file_idx = pickv(n_strings),
+                        }
+                        done = true;
+                    }
+                    _ => {}
+                }
+                if done {
+                    out.push((label, x));
+                }
+            }
+        }
+    }
+    out
+}
+
 struct Reload<'a> {
     src: &'a str,
     cycles_before: u64,
@@ -58,6 +346,21 @@ fn exercise(kind: &str, bytes: &[u8], reload: &Reload<'_>, stats: &mut Stats) ->
         stats.inc("probe.damaged_container_rejected_by_decode");
         return Ok(());
     };
+    {
+        // decoding an encoded module reproduces the module (whatever container the module came from)
+        if let Ok(re) = guard("BytecodeModule::encode", || module.encode()).map_err(|v| v.narrowed(narrowed()))? {
+            match guard("BytecodeModule::decode", || BytecodeModule::decode(&re)).map_err(|v| v.narrowed(narrowed()))? {
+                Ok(m2) if m2 == module => {}
+                other => {
+                    return Err(Violation::new(
+                        format!("roundtrip/decode-encode-not-identity/{kind}"),
+                        format!("a module decoded from a {}-byte container encodes to bytes that decode to {}", bytes.len(), match other { Ok(_) => "another module".to_string(), Err(e) => format!("an error: {e:?}") }),
+                    )
+                    .narrowed(narrowed()));
+                }
+            }
+        }
+    }
     crate::alloc_probe::reset_max();
     let valid = guard("BytecodeModule::validate", || module.validate()).map_err(|v| v.narrowed(narrowed()))?;
     let meta = guard("BytecodeModule::metadata", || module.metadata()).map_err(|v| v.narrowed(narrowed()))?;
@@ -123,6 +426,19 @@ fn exercise_light(kind: &str, bytes: &[u8], stats: &mut Stats) -> Result<(), Vio
     }
     stats.inc(&format!("fault.{kind}"));
     if let Ok(module) = decoded {
+        // decoding an encoded module reproduces the module (whatever container the module came from)
+        if let Ok(re) = guard("BytecodeModule::encode", || module.encode()).map_err(|v| v.narrowed(narrowed()))? {
+            match guard("BytecodeModule::decode", || BytecodeModule::decode(&re)).map_err(|v| v.narrowed(narrowed()))? {
+                Ok(m2) if m2 == module => {}
+                other => {
+                    return Err(Violation::new(
+                        format!("roundtrip/decode-encode-not-identity/{kind}"),
+                        format!("a module decoded from a {}-byte container encodes to bytes that decode to {}", bytes.len(), match other { Ok(_) => "another module".to_string(), Err(e) => format!("an error: {e:?}") }),
+                    )
+                    .narrowed(narrowed()));
+                }
+            }
+        }
         crate::alloc_probe::reset_max();
         let valid = guard("BytecodeModule::validate", || module.validate()).map_err(|v| v.narrowed(narrowed()))?;
         let _ = guard("BytecodeModule::metadata", || module.metadata()).map_err(|v| v.narrowed(narrowed()))?;
@@ -227,6 +543,7 @@ impl Check for C11Check {
             "probe.clean_roundtrip",
             "probe.cross_reload_of_sibling_container",
             "probe.apply_sized_image_beyond_allocation_bound",
+            "probe.mutant_refused_by_encoder",
         ] {
             stats.add(p, 0);
         }
@@ -351,6 +668,30 @@ impl Check for C11Check {
         }
         let mut h = Fnv::new();
         h.u64(chash).str("field-sweep");
+        stats.nontrivial(h.finish());
+
+        // ---- structure-aware mutations of the decoded module, re-encoded with a fresh checksum
+        let mutants = struct_mutants(&module);
+        stats.add("structure_mutants", mutants.len() as u64);
+        let mut validating = 0u64;
+        for (label, mutant) in mutants {
+            match guard("encode mutant", || mutant.encode())? {
+                Ok(b) => {
+                    // those that still validate also go through the hot reload
+                    let validates = BytecodeModule::decode(&b).ok().is_some_and(|m| std::panic::catch_unwind(std::panic::AssertUnwindSafe(|| m.validate().is_ok())).unwrap_or(false));
+                    validating += u64::from(validates);
+                    // hot reload for a deterministic tenth of them (a reload costs a compile of the world)
+                    if validates && validating % 10 == 1 {
+                        exercise(label, &b, &reload, stats)?;
+                    } else {
+                        exercise_light(label, &b, stats)?;
+                    }
+                }
+                Err(_) => stats.inc("probe.mutant_refused_by_encoder"),
+            }
+        }
+        let mut h = Fnv::new();
+        h.u64(chash).str("structure");
         stats.nontrivial(h.finish());
 
         // ---- listed faults
